@@ -39,7 +39,9 @@ RECURSIVE Chg(_, _, _, _, _), ChgSites(_, _, _, _, _, _, _, _, _), ChgLoop(_, _,
 Chg(p, args, targs, chm, cons) ==
   CASE p.k \in {"dist", "cat"} -> C2(<<>> \in cons, {})
     [] p.k = "static"  -> ChgSites(p, args, targs, chm, cons, 1, <<>>, <<>>, {})
-    [] p.k = "closure" -> Chg(p.subs[1], p.x \o args, AllT(Len(p.x), FALSE) \o targs, chm, cons)
+    \* a closure tags its stored arguments UnknownChange (conservative by design): they count as tainted
+    [] p.k = "closure" -> IF p.n = 2 THEN Chg(p.subs[1], args \o p.x, targs \o AllT(Len(p.x), p.n # 1), chm, cons)
+                          ELSE Chg(p.subs[1], p.x \o args, AllT(Len(p.x), p.n # 1) \o targs, chm, cons)
     [] p.k \in {"vmap", "repeat"} ->
          LET el(i) == IF p.k = "repeat" THEN args
                       ELSE [j \in 1..Len(args) |-> IF p.x[j] = 1 THEN Unstack(args[j], i) ELSE args[j]]
